@@ -895,6 +895,8 @@ def run(chk):
 
     from verif import fallthrough
     fallthrough.run(chk, "C02", floor=12)
+    from verif import argorder
+    argorder.run(chk, "C02", floor=35)
 
     chk.assumptions += [
         "tables/measure_dims.json and tables/physical_units.json are the independent oracle (SI definitions; Eclipse unit conventions)",
